@@ -28,3 +28,43 @@ Theorem brackets_of_a_long_string c d n b : brk (bstr (EBrk n b)) (pexp c d (EBr
 Proof. reflexivity. Qed.
 Theorem brackets_of_a_name c d x : brk (bstr (EName x)) (pexp c d (EName x)) = [kw "["; Lex.TIdent x; kw "]"].
 Proof. reflexivity. Qed.
+
+(* ---------- the point of the blanks: a long-bracket string never stands right behind the `[` of an index or a key ---------- *)
+From SV Require Import Lex Fmt0Proof Fmt0Lex.
+Definition hd_brk (ts : list Lex.tok) : bool := match ts with Lex.TStr Lex.QBrackets _ _ :: _ => true | _ => false end.
+(* an expression (not a table field) along whose leftmost path what is indexed / called is a name, a parenthesised expression or a chain
+   (what the parser returns) *)
+Fixpoint lok (e : exp) : bool :=
+  match e with
+  | EField p _ | EIndex p _ | ECall p _ _ | EMethod p _ _ _ => prefixlike p && lok p
+  | EBin _ l _ => lok l
+  | FPos _ | FNamed _ _ | FKey _ _ | FLine _ _ _ | FCom _ _ => false      (* table fields are not expressions: never a key *)
+  | _ => true
+  end.
+Lemma hd_brk_app xs ys : xs <> [] -> hd_brk (xs ++ ys) = hd_brk xs.
+Proof. destruct xs; [contradiction|reflexivity]. Qed.
+Lemma chain_head c d p rest : prefixlike p = true -> lok p = true ->
+  (hd_brk (pexp c d p) = true -> bstr p = true) -> hd_brk (pexp c d p ++ rest) = false.
+Proof.
+  intros P L IH. rewrite hd_brk_app by apply pexp_ne. destruct (hd_brk (pexp c d p)) eqn:E; [|reflexivity].
+  specialize (IH eq_refl). destruct p; discriminate.
+Qed.
+Theorem first_token_long_only_if_bstr c : forall e d, lok e = true -> hd_brk (pexp c d e) = true -> bstr e = true.
+Proof.
+  induction e using exp_ind'; intros d L Hh; cbn [Fmt0.pexp] in Hh; try discriminate; try reflexivity.
+  - (* a quoted string *) unfold pstr in Hh. destruct (QuoteMore.choose (style0 c) s); discriminate.
+  - cbn [lok] in L. apply andb_true_iff in L. destruct L as [P L]. rewrite (chain_head c d e _ P L (IHe d L)) in Hh. discriminate.
+  - cbn [lok] in L. apply andb_true_iff in L. destruct L as [P L]. rewrite (chain_head c d e1 _ P L (IHe1 d L)) in Hh. discriminate.
+  - cbn [lok] in L. apply andb_true_iff in L. destruct L as [P L]. rewrite (chain_head c d e _ P L (IHe d L)) in Hh. discriminate.
+  - cbn [lok] in L. apply andb_true_iff in L. destruct L as [P L]. rewrite (chain_head c d e _ P L (IHe d L)) in Hh. discriminate.
+  - destruct u; discriminate.
+  - cbn [lok bstr] in *. rewrite hd_brk_app in Hh by apply pexp_ne. apply (IHe1 d L Hh).
+  - destruct fs; discriminate.
+  - destruct fs; discriminate.
+Qed.
+Theorem no_long_string_right_behind_the_bracket c d k : lok k = true ->
+  match brk (bstr k) (pexp c d k) with _ :: rest => hd_brk rest = false | [] => True end.
+Proof.
+  intros L. unfold brk. destruct (bstr k) eqn:B; [reflexivity|]. rewrite hd_brk_app by apply pexp_ne.
+  destruct (hd_brk (pexp c d k)) eqn:E; [|reflexivity]. rewrite (first_token_long_only_if_bstr c k d L E) in B. discriminate.
+Qed.
